@@ -64,10 +64,11 @@ theorem terminalLast_spec (h : List HEvent) (ht : terminalLast h = true) (pre po
 theorem reverse_is_reverse (h : List HEvent) : h.reverse.reverse = h := List.reverse_reverse h
 
 
-/-! ### the reference semantics predicts the state events of the history
+/-! ### the reference semantics predicts the history and the notifications
 
-`Asl.run` records (`Outcome.log`, oldest first) an `entered` event where the engine writes
-`…StateEntered` and an `exited` event where it writes `…StateExited` (see `St.log`). -/
+`Asl.run` records (`Outcome.history`, oldest first) every event the engine writes to the history of a
+STANDARD execution of the modelled fragment (see `Ev`): `Outcome.log` are the events between
+`ExecutionStarted` and the terminal event. -/
 
 /-- whatever a run does, the log only grows: the state after running from any state is the state
 before with more events in front (the log is kept most recent first) -/
@@ -76,48 +77,166 @@ theorem log_only_grows (env : Env) (fuel : Nat) (states : Json) (name : Str) (da
   let ⟨evs, h, _⟩ := (growsAll env fuel).runFrom states name data ctx r st
   ⟨evs, h⟩
 
-/-- (i) for every machine, input, environment and fuel: the names of the `entered` events of the log
+/-- what the run of the top scope leaves in the state: the log and the trace fit, no event opens or
+closes the execution, every reply has its request -/
+theorem run_state_facts (env : Env) (fuel : Nat) (asl input ctx : Json) :
+    enteredNames (runCore env fuel asl input ctx).2.log.reverse = (runCore env fuel asl input ctx).2.trace.reverse ∧
+    (∀ e ∈ (runCore env fuel asl input ctx).2.log.reverse, e.isExec = false) ∧
+    bracketed (runCore env fuel asl input ctx).2.log = true := by
+  have G : Grows {} (runCore env fuel asl input ctx).2 := by
+    unfold runCore
+    split
+    · exact (growsAll env fuel).runFrom _ _ _ _ _ _
+    · exact Grows.refl _
+  obtain ⟨evs, hl, ht, hx, hb⟩ := G
+  have hl' : (runCore env fuel asl input ctx).2.log = evs := by simpa using hl
+  have ht' : (runCore env fuel asl input ctx).2.trace = enteredNames evs := by simpa using ht
+  refine ⟨by rw [enteredNames_reverse, hl', ht'], ?_, by rw [hl']; exact hb⟩
+  intro e he
+  rw [hl'] at he
+  exact hx e (by simpa using he)
+
+/-- for every machine, input, environment and fuel: the names of the `…StateEntered` events of the log
 are exactly the `trace` -/
 theorem entered_matches_trace (env : Env) (fuel : Nat) (asl input ctx : Json) :
-    enteredNames (run env fuel asl input ctx).log = (run env fuel asl input ctx).trace := by
-  unfold run
-  split
-  · rename_i start states h1 h2
-    obtain ⟨evs, hl, ht⟩ := (growsAll env fuel).runFrom states start input ctx 0 {}
-    generalize runFrom env fuel states start input ctx 0 {} = p at hl ht
-    obtain ⟨r, st⟩ := p
-    have hl' : st.log = evs := by simpa using hl
-    have ht' : st.trace = enteredNames evs := by simpa using ht
-    cases r <;> simp only [enteredNames_reverse, hl', ht']
-  · rfl
+    enteredNames (run env fuel asl input ctx).log = (run env fuel asl input ctx).trace :=
+  (run_state_facts env fuel asl input ctx).1
 
-/-- (ii) the log (like the whole outcome) does not depend on the fuel -/
-theorem log_fuel_independent (env : Env) (n m : Nat) (h : n ≤ m) (asl input ctx : Json)
+/-- (i) a run that ended: the predicted history begins with `ExecutionStarted` carrying the input, ends
+with exactly one terminal event — `ExecutionSucceeded` with the output, or `ExecutionFailed` with the
+error and cause, as the outcome says — and no other event of these three kinds occurs in it -/
+theorem history_starts_and_ends (env : Env) (fuel : Nat) (asl input ctx : Json)
+    (hs : (run env fuel asl input ctx).status = S "SUCCEEDED" ∨ (run env fuel asl input ctx).status = S "FAILED") :
+    ∃ last, (run env fuel asl input ctx).history =
+        .execStarted input :: ((run env fuel asl input ctx).log ++ [last]) ∧
+      (∀ e ∈ (run env fuel asl input ctx).log, e.isExec = false) ∧
+      (((run env fuel asl input ctx).status = S "SUCCEEDED" ∧
+          ∃ d, (run env fuel asl input ctx).output = some d ∧ last = .execSucceeded d) ∨
+       ((run env fuel asl input ctx).status = S "FAILED" ∧
+          ∃ e, (run env fuel asl input ctx).error = some e ∧
+            last = .execFailed e (run env fuel asl input ctx).cause)) := by
+  have hx := (run_state_facts env fuel asl input ctx).2.1
+  unfold run at hs ⊢
+  generalize runCore env fuel asl input ctx = p at hs hx ⊢
+  obtain ⟨r, st⟩ := p
+  cases r with
+  | done d => exact ⟨.execSucceeded d, rfl, hx, Or.inl ⟨rfl, d, rfl, rfl⟩⟩
+  | failed e c f => exact ⟨.execFailed e c, rfl, hx, Or.inr ⟨rfl, e, rfl, rfl⟩⟩
+  | fuel => rcases hs with h | h <;> (simp only [Outcome.ofRun] at h; exact absurd h (by decide))
+  | unsupported w => rcases hs with h | h <;> (simp only [Outcome.ofRun] at h; exact absurd h (by decide))
+
+/-- … and a run that did not end (out of fuel, unsupported resource) has no terminal event yet -/
+theorem unfinished_history_has_no_terminal_event (env : Env) (fuel : Nat) (asl input ctx : Json)
+    (hs : (run env fuel asl input ctx).status = S "FUEL" ∨ (run env fuel asl input ctx).status = S "UNSUPPORTED") :
+    (run env fuel asl input ctx).history = .execStarted input :: (run env fuel asl input ctx).log ∧
+    (run env fuel asl input ctx).notifications = [(S "RUNNING", .null)] := by
+  unfold run at hs ⊢
+  generalize runCore env fuel asl input ctx = p at hs ⊢
+  obtain ⟨r, st⟩ := p
+  cases r with
+  | done d => rcases hs with h | h <;> (simp only [Outcome.ofRun] at h; exact absurd h (by decide))
+  | failed e c f => rcases hs with h | h <;> (simp only [Outcome.ofRun] at h; exact absurd h (by decide))
+  | fuel => exact ⟨by simp [Outcome.ofRun, historyOf, terminalOf], rfl⟩
+  | unsupported w => exact ⟨by simp [Outcome.ofRun, historyOf, terminalOf], rfl⟩
+
+/-- (ii) the history, the notifications (like the whole outcome) do not depend on the fuel -/
+theorem history_fuel_independent (env : Env) (n m : Nat) (h : n ≤ m) (asl input ctx : Json)
     (hs : (run env n asl input ctx).status ≠ S "FUEL") :
+    (run env m asl input ctx).history = (run env n asl input ctx).history ∧
+    (run env m asl input ctx).notifications = (run env n asl input ctx).notifications ∧
     (run env m asl input ctx).log = (run env n asl input ctx).log ∧
     (run env m asl input ctx).requests = (run env n asl input ctx).requests ∧
     (run env m asl input ctx).fanFail = (run env n asl input ctx).fanFail := by
   rw [Asl.run_fuel_independent env n m h asl input ctx hs]
-  exact ⟨rfl, rfl, rfl⟩
+  exact ⟨rfl, rfl, rfl, rfl, rfl⟩
 
-/-- (iii) a successful `leave` — End reached with an output within the limit — appends exactly one
-`exited` event carrying the output -/
+/-- (iii) one task invocation files `LambdaFunctionScheduled` with the request's payload and resource
+and, directly after it, the reply's event — `LambdaFunctionSucceeded` or `LambdaFunctionFailed` -/
+theorem taskCall_files_request_then_reply (st : St) (counts : List ((Str × Json) × Nat)) (res : Str) (p r : Json)
+    (m : Nat) :
+    (st.taskCall counts res p r m).log = replyEv m r :: .lambdaScheduled p res :: st.log ∧
+    (replyEv m r).isReply = true := ⟨rfl, replyEv_isReply m r⟩
+
+/-- … in the Task state: whatever the state does afterwards (ResultSelector, ResultPath, transition,
+Retry, Catch) comes later -/
+theorem task_events_bracketed (env : Env) (fuel : Nat) (states : Json) (name fn : Str)
+    (state data ctx input params : Json) (retries : Nat) (st : St)
+    (h : stateType state = S "Task")
+    (hr : rpcFunction ((fldStr state "Resource").getD []) = some fn)
+    (hi : applyPath data ctx (pathArg state "InputPath") = .ok input)
+    (hp : tmplOpt env input ctx (fld state "Parameters") = .ok params) :
+    ∃ later, (runState env (fuel + 1) states name state data ctx retries st).2.log =
+      later ++ replyEv env.maxData (env.task fn params (bump st.counts (fn, params)).1) ::
+        .lambdaScheduled params ((fldStr state "Resource").getD []) :: st.log := by
+  have h1 : (S "Task" = S "Pass") = False := by decide
+  have h2 : (S "Task" = S "Succeed") = False := by decide
+  have h3 : (S "Task" = S "Fail") = False := by decide
+  have h4 : (S "Task" = S "Wait") = False := by decide
+  have h5 : (S "Task" = S "Choice") = False := by decide
+  have G := growsAll env fuel
+  simp only [runState, h, h1, h2, h3, h4, h5, hr, hi, hp, if_false, if_true]
+  generalize hst : st.taskCall (bump st.counts (fn, params)).2 ((fldStr state "Resource").getD []) params
+    (env.task fn params (bump st.counts (fn, params)).1) env.maxData = st1
+  have hl : st1.log = replyEv env.maxData (env.task fn params (bump st.counts (fn, params)).1) ::
+      .lambdaScheduled params ((fldStr state "Resource").getD []) :: st.log := by rw [← hst]; rfl
+  have fin : ∀ st2, Grows st1 st2 → ∃ later, st2.log = later ++
+      replyEv env.maxData (env.task fn params (bump st.counts (fn, params)).1) ::
+        .lambdaScheduled params ((fldStr state "Resource").getD []) :: st.log := by
+    intro st2 ⟨evs, hg, _⟩
+    exact ⟨evs, by rw [hg, hl]⟩
+  split
+  · exact fin _ (G.handleErr _ _ _ _ _ _ _ _ _)
+  · split
+    · exact fin _ (G.handleErr _ _ _ _ _ _ _ _ _)
+    · split
+      · exact fin _ (G.handleErr _ _ _ _ _ _ _ _ _)
+      · exact fin _ (G.leave _ _ _ _ _ _ _ _)
+
+/-- … and in every run: each `LambdaFunctionSucceeded` / `LambdaFunctionFailed` of the log has its
+`LambdaFunctionScheduled` directly before it (the log reversed is most recent first, see `bracketed_spec`) -/
+theorem every_reply_has_its_request (env : Env) (fuel : Nat) (asl input ctx : Json) :
+    bracketed (run env fuel asl input ctx).log.reverse = true := by
+  have := (run_state_facts env fuel asl input ctx).2.2
+  simpa [run, Outcome.ofRun] using this
+
+/-- (iv) the status notifications of a run that ended are exactly RUNNING and the terminal status, whose
+payload is the outcome: the output, or the Error Output {Error, Cause} -/
+theorem notifications_shape (env : Env) (fuel : Nat) (asl input ctx : Json)
+    (hs : (run env fuel asl input ctx).status = S "SUCCEEDED" ∨ (run env fuel asl input ctx).status = S "FAILED") :
+    ∃ payload, (run env fuel asl input ctx).notifications =
+        [(S "RUNNING", .null), ((run env fuel asl input ctx).status, payload)] ∧
+      (((run env fuel asl input ctx).status = S "SUCCEEDED" ∧ (run env fuel asl input ctx).output = some payload) ∨
+       ((run env fuel asl input ctx).status = S "FAILED" ∧
+          ∃ e, (run env fuel asl input ctx).error = some e ∧
+            payload = errorOutput e (run env fuel asl input ctx).cause)) := by
+  unfold run at hs ⊢
+  generalize runCore env fuel asl input ctx = p at hs ⊢
+  obtain ⟨r, st⟩ := p
+  cases r with
+  | done d => exact ⟨d, rfl, Or.inl ⟨rfl, rfl⟩⟩
+  | failed e c f => exact ⟨errorOutput e c, rfl, Or.inr ⟨rfl, e, rfl, rfl⟩⟩
+  | fuel => rcases hs with h | h <;> (simp only [Outcome.ofRun] at h; exact absurd h (by decide))
+  | unsupported w => rcases hs with h | h <;> (simp only [Outcome.ofRun] at h; exact absurd h (by decide))
+
+/-- a successful `leave` — End reached with an output within the limit — appends exactly one
+`…StateExited` event carrying the output -/
 theorem leave_logs_exit (env : Env) (fuel : Nat) (states : Json) (name : Str) (state raw out ctx : Json)
     (retries : Nat) (st : St) (hE : isTrue (fld state "End") = true) (hL : (render out).length ≤ env.maxData) :
-    (leave env (fuel + 1) states name state raw out ctx retries st).2.log = .exited name out :: st.log := by
+    (leave env (fuel + 1) states name state raw out ctx retries st).2.log =
+      .exited (stateType state) name out :: st.log := by
   have : ¬ (render out).length > env.maxData := by omega
   simp [leave, hE, this, St.exit]
 
-/-- … and an accepted transition appends that one `exited` event *before* anything the successor (and
-everything after it) logs -/
+/-- … and an accepted transition appends that one `…StateExited` event *before* anything the successor
+(and everything after it) logs -/
 theorem leave_logs_exit_before_successor (env : Env) (fuel : Nat) (states : Json) (name next : Str)
     (state raw out ctx : Json) (retries : Nat) (st : St)
     (hE : isTrue (fld state "End") = false) (hN : fldStr state "Next" = some next)
     (hL : (render out).length ≤ env.maxData) :
     ∃ later, (leave env (fuel + 1) states name state raw out ctx retries st).2.log =
-      later ++ .exited name out :: st.log := by
+      later ++ .exited (stateType state) name out :: st.log := by
   have : ¬ (render out).length > env.maxData := by omega
-  obtain ⟨evs, h⟩ := log_only_grows env fuel states next out ctx 0 (st.exit name out)
+  obtain ⟨evs, h⟩ := log_only_grows env fuel states next out ctx 0 (st.exit (stateType state) name out)
   exact ⟨evs, by simpa [leave, hE, hN, this, St.exit] using h⟩
 
 /-- a refused transition / an over-limit terminal output logs no exit by itself: the state is handed to
@@ -135,14 +254,18 @@ theorem refused_leave_logs_nothing (env : Env) (fuel : Nat) (states : Json) (nam
     · obtain ⟨nx, hn⟩ := Option.isSome_iff_exists.mp h
       simp [leave, hE', hn, hL]
 
-/-- (iv) a state whose error is neither retried nor caught logs no exit: the failure leaves the log
-(and the rest of the state) exactly as it was -/
+/-- a state whose error is neither retried nor caught logs no exit: a Task / Pass / … state leaves the
+log exactly as it was, a Parallel / Map state files `<Type>StateFailed` and nothing else -/
 theorem failed_state_logs_no_exit (env : Env) (fuel : Nat) (states : Json) (name : Str) (state data ctx : Json)
     (retries : Nat) (e msg : Str) (st : St)
     (h : decideError ((listOf (fld state "Retry")).map retrierOf) ((listOf (fld state "Catch")).map catcherOf)
       e retries = .uncaught) :
-    (handleErr env (fuel + 1) states name state data ctx retries e msg st).2 = st := by
-  simp [handleErr, h]
+    (handleErr env (fuel + 1) states name state data ctx retries e msg st).2 = st.fanFailedIf state ∧
+    (isFanOut (stateType state) = false → st.fanFailedIf state = st) ∧
+    (isFanOut (stateType state) = true → (st.fanFailedIf state).log = .fanFailed (stateType state) :: st.log) := by
+  refine ⟨by simp [handleErr, h], ?_, ?_⟩
+  · intro hf; simp [St.fanFailedIf, hf]
+  · intro hf; simp [St.fanFailedIf, hf, St.push]
 
 /-- a caught state is exited (the engine files the Catcher's transition under the caught state's name)
 with the data handed to the Catcher's `Next`, before anything the successor logs -/
@@ -154,18 +277,19 @@ theorem caught_state_logs_exit_with_handed_data (env : Env) (fuel : Nat) (states
     (hp : applyResultPath data (errorOutput e (causeOf msg)) (match c.resultPath with | none => some ['$'] | some p => p) = .ok data')
     (hl : (render data').length ≤ env.maxData) :
     ∃ later, (handleErr env (fuel + 1) states name state data ctx retries e msg st).2.log =
-      later ++ .exited name data' :: st.log := by
+      later ++ .exited (stateType state) name data' :: (st.fanFailedIf state).log := by
   have : ¬ env.maxData < (render data').length := by omega
-  obtain ⟨evs, hg⟩ := log_only_grows env fuel states next data' ctx 0 (st.exit name data')
+  obtain ⟨evs, hg⟩ := log_only_grows env fuel states next data' ctx 0
+    ((st.fanFailedIf state).exit (stateType state) name data')
   refine ⟨evs, ?_⟩
   cases hrp : c.resultPath with
   | none => simp only [hrp] at hp; simpa [handleErr, h, hn, hrp, hp, this, St.exit] using hg
   | some q => simp only [hrp] at hp; simpa [handleErr, h, hn, hrp, hp, this, St.exit] using hg
 
-/-- entering a state for the first time logs `entered` with its raw input; a retry re-entry logs nothing -/
-theorem enter_logs_raw_input (st : St) (name : Str) (data : Json) :
-    (st.enter name data 0).log = .entered name data :: st.log ∧
-    ∀ k, (st.enter name data (k + 1)).log = st.log := by
+/-- entering a state for the first time logs `…StateEntered` with its raw input; a retry re-entry logs nothing -/
+theorem enter_logs_raw_input (st : St) (ty name : Str) (data : Json) :
+    (st.enter ty name data 0).log = .entered ty name data :: st.log ∧
+    ∀ k, (st.enter ty name data (k + 1)).log = st.log := by
   constructor
   · simp [St.enter]
   · intro k; simp [St.enter]
@@ -180,36 +304,65 @@ example : WFHistory [ev 1 "ExecutionStarted" "", ev 2 "PassStateEntered" "P", ev
     ev 4 "PassStateEntered" "Q", ev 5 "ExecutionSucceeded" ""] = false := by decide
 example : WFHistory [ev 1 "ExecutionStarted" "", ev 3 "PassStateEntered" "P"] = false := by decide
 
-/-! the log, concretely: Task `T` (retried once after an error, then caught) → `C`; limit 262144 -/
+/-! the history, concretely: Task `T` (retried once after an error, then caught) → `C`; limit 262144 -/
 private def k (s : String) : Str := s.toList
+private def rE : Json := .obj [(k "errorType", .str (k "E")), (k "errorMessage", .str (k "m"))]
+private def rF : Json := .obj [(k "errorType", .str (k "F"))]
 private def envL : Env :=
-  { tmpl := Lite.tmpl, choose := Lite.choose
-    task := fun _ _ n => if n = 0 then .obj [(k "errorType", .str (k "E")), (k "errorMessage", .str (k "m"))]
-                          else .obj [(k "errorType", .str (k "F"))] }
+  { tmpl := Lite.tmpl, choose := Lite.choose, task := fun _ _ n => if n = 0 then rE else rF }
+private def arnF : Str := k "arn:aws:rpcmessage:local::function:f"
 private def tSt : Json := .obj [
-  (k "Type", .str (k "Task")), (k "Resource", .str (k "arn:aws:rpcmessage:local::function:f")), (k "Next", .str (k "N")),
+  (k "Type", .str (k "Task")), (k "Resource", .str arnF), (k "Next", .str (k "N")),
   (k "Retry", .arr [.obj [(k "ErrorEquals", .arr [.str (k "E")]), (k "MaxAttempts", .num 1)]]),
   (k "Catch", .arr [.obj [(k "ErrorEquals", .arr [.str (k "States.ALL")]), (k "ResultPath", .null), (k "Next", .str (k "C"))]])]
 private def aslL : Json := .obj [(k "StartAt", .str (k "T")), (k "States", .obj [
   (k "T", tSt), (k "N", .obj [(k "Type", .str (k "Succeed"))]),
   (k "C", .obj [(k "Type", .str (k "Pass")), (k "Result", .num 7), (k "ResultPath", .str (k "$.r")), (k "End", .bool true)])])]
 private def inL : Json := .obj [(k "a", .num 1)]
-/-- entered T (once, although it ran twice), T exited through its Catcher with the raw input, C entered
-with it and exited with its output; two task requests -/
-example : (run envL 20 aslL inL (.obj [])).log =
-    [.entered (k "T") inL, .exited (k "T") inL, .entered (k "C") inL,
-     .exited (k "C") (.obj [(k "a", .num 1), (k "r", .num 7)])] ∧
+private def outL : Json := .obj [(k "a", .num 1), (k "r", .num 7)]
+/-- the complete history: T entered (once, although it ran twice), two requests each followed by its
+failure, T exited through its Catcher with the raw input, C entered with it and exited with its output -/
+example : (run envL 20 aslL inL (.obj [])).history =
+    [.execStarted inL, .entered (k "Task") (k "T") inL,
+     .lambdaScheduled inL arnF, .lambdaFailed (.str (k "E")) (.str (k "m")),
+     .lambdaScheduled inL arnF, .lambdaFailed (.str (k "F")) (.str []),
+     .exited (k "Task") (k "T") inL, .entered (k "Pass") (k "C") inL, .exited (k "Pass") (k "C") outL,
+     .execSucceeded outL] ∧
+    (run envL 20 aslL inL (.obj [])).notifications = [(S "RUNNING", .null), (S "SUCCEEDED", outL)] ∧
     (run envL 20 aslL inL (.obj [])).requests = 2 ∧ (run envL 20 aslL inL (.obj [])).fanFail = false ∧
     (run envL 20 aslL inL (.obj [])).trace = [k "T", k "C"] := by decide +kernel
-/-- hypothesis of `log_fuel_independent` -/
-example : (run envL 20 aslL inL (.obj [])).status ≠ S "FUEL" := by decide +kernel
-/-- a Fail state is entered and never exited; the failed fan-out around it sets `fanFail` -/
+/-- hypotheses of `history_starts_and_ends` / `notifications_shape` / `history_fuel_independent` -/
+example : (run envL 20 aslL inL (.obj [])).status = S "SUCCEEDED" ∧
+    (run envL 20 aslL inL (.obj [])).status ≠ S "FUEL" := by decide +kernel
+/-- … and of `unfinished_history_has_no_terminal_event` -/
+example : (run envL 3 aslL inL (.obj [])).status = S "FUEL" := by decide +kernel
+/-- a failing Parallel: started, the Fail state entered and never exited, the Parallel filed as failed,
+the execution failed with the branch's error; `fanFail` -/
 private def aslF : Json := .obj [(k "StartAt", .str (k "P")), (k "States", .obj [
   (k "P", .obj [(k "Type", .str (k "Parallel")), (k "End", .bool true), (k "Branches", .arr [
     .obj [(k "StartAt", .str (k "F")), (k "States", .obj [(k "F", .obj [(k "Type", .str (k "Fail")), (k "Error", .str (k "X"))])])]])])])]
-example : (run envL 20 aslF inL (.obj [])).log = [.entered (k "P") inL, .entered (k "F") inL] ∧
+example : (run envL 20 aslF inL (.obj [])).history =
+    [.execStarted inL, .entered (k "Parallel") (k "P") inL, .fanStarted (k "Parallel") none,
+     .entered (k "Fail") (k "F") inL, .fanFailed (k "Parallel"),
+     .execFailed (k "X") (some (.str (k "<cause>")))] ∧
+    (run envL 20 aslF inL (.obj [])).notifications =
+      [(S "RUNNING", .null), (S "FAILED", .obj [(S "Error", .str (k "X")), (S "Cause", .str (k "<cause>"))])] ∧
     (run envL 20 aslF inL (.obj [])).fanFail = true ∧ (run envL 20 aslF inL (.obj [])).requests = 0 := by
   decide +kernel
+/-- a Map over two items: started with its length, each iteration started with its index -/
+private def aslM : Json := .obj [(k "StartAt", .str (k "M")), (k "States", .obj [
+  (k "M", .obj [(k "Type", .str (k "Map")), (k "End", .bool true), (k "ItemsPath", .str (k "$.xs")),
+    (k "Iterator", .obj [(k "StartAt", .str (k "I")), (k "States", .obj [
+      (k "I", .obj [(k "Type", .str (k "Pass")), (k "End", .bool true)])])])])])]
+example : (run envL 20 aslM (.obj [(k "xs", .arr [.num 5, .num 6])]) (.obj [(k "State", .obj [])])).log =
+    [.entered (k "Map") (k "M") (.obj [(k "xs", .arr [.num 5, .num 6])]), .fanStarted (k "Map") (some 2),
+     .iterStarted (k "M") 0, .entered (k "Pass") (k "I") (.num 5), .exited (k "Pass") (k "I") (.num 5),
+     .iterStarted (k "M") 1, .entered (k "Pass") (k "I") (.num 6), .exited (k "Pass") (k "I") (.num 6),
+     .exited (k "Map") (k "M") (.arr [.num 5, .num 6])] := by decide +kernel
+/-- hypotheses of `task_events_bracketed` on `tSt` -/
+example : stateType tSt = S "Task" ∧ rpcFunction ((fldStr tSt "Resource").getD []) = some (k "f") ∧
+    applyPath inL (.obj []) (pathArg tSt "InputPath") = .ok inL ∧
+    tmplOpt envL inL (.obj []) (fld tSt "Parameters") = .ok inL := ⟨by rfl, by rfl, by rfl, by rfl⟩
 /-- hypotheses of `leave_logs_exit` / `leave_logs_exit_before_successor` / `failed_state_logs_no_exit` /
 `caught_state_logs_exit_with_handed_data` on `tSt` and a terminal state -/
 example : isTrue (fld (.obj [(k "Type", .str (k "Pass")), (k "End", .bool true)]) "End") = true ∧
@@ -220,5 +373,8 @@ example : decideError ((listOf (fld tSt "Retry")).map retrierOf) ((listOf (fld t
     (S "States.Runtime") 0 = .uncaught := by rfl
 example : ∃ c, decideError ((listOf (fld tSt "Retry")).map retrierOf) ((listOf (fld tSt "Catch")).map catcherOf)
     (k "F") 1 = .caught c ∧ c.next = some (k "C") ∧ c.resultPath = some none := ⟨_, rfl, rfl, rfl⟩
+/-- `bracketed` is not constantly true: a reply without its request is rejected -/
+example : bracketed [.lambdaSucceeded (.num 1), .entered (k "Task") (k "T") inL] = false ∧
+    bracketed [.lambdaSucceeded (.num 1), .lambdaScheduled inL arnF] = true := by decide
 
 end Asl.C09
